@@ -15,4 +15,5 @@ def check(tier, seed):
     d.explanation = ("_check_finite / _check_number_perturbations proved for tuples of arbitrary length; the cache protocol of the "
                      "__getitem__ loop body proved for an arbitrary addressed index and arbitrary cache state satisfying the invariant; "
                      f"bounded in the number of dimensions: (n_finite, n_infinite) in {getitem_grid(tier)}.")
+    d.run_battery("series_battery.py", ['index'], "shapes <= (2,3), <= 2 infinite dimensions, orders <= 3, fixed list of index entries, 4x4 two-block problems; see replay/series_battery.py")
     return d.finish(level="proof", trusted_base=["contracts/series_index.py"])
